@@ -18,6 +18,7 @@ import (
 	"github.com/taurusgroup/multi-party-sig/pkg/party"
 	"github.com/taurusgroup/multi-party-sig/pkg/protocol"
 	"github.com/taurusgroup/multi-party-sig/protocols/doerner"
+	"github.com/taurusgroup/multi-party-sig/protocols/frost"
 	"github.com/taurusgroup/multi-party-sig/verifharness/fault"
 	"github.com/taurusgroup/multi-party-sig/verifharness/judge"
 	"github.com/taurusgroup/multi-party-sig/verifharness/oracle"
@@ -277,6 +278,8 @@ func run(sc Scenario, seed string) (outcome, []sim.Event) {
 		r.stop(sess, label)
 	case "presigncheat":
 		r.presignCheat(label, seed)
+	case "dealercheat":
+		r.dealerCheat(sess, label)
 	case "foreign":
 		r.foreign(sess, label, seed)
 	case "relabel":
@@ -728,6 +731,41 @@ func (r *runner) fault(sess *protos.Session, label func(party.ID) string) {
 
 func sess2(su *setup) *protos.Session { return su.session([]byte("sid")) }
 
+// dealerCheat: one FROST dealer deals a polynomial of degree threshold+Leaf (Leaf = +1 / -1 reused as the delta)
+// with consistent shares; honest parties must not crash and must not finish with inconsistent material.
+func (r *runner) dealerCheat(sess *protos.Session, label func(party.ID) string) {
+	e := r.e
+	e.Log = false
+	su := r.su
+	delta := 1
+	if r.sc.Alt == "minus" {
+		delta = -1
+	}
+	k := r.byz
+	cfgs := protos.CloneConfigs(su.cfgs)
+	var mk func() protocol.StartFunc
+	switch su.proto {
+	case "frost-keygen":
+		mk = func() protocol.StartFunc { return frost.Keygen(protos.Group, k, su.ids, su.t) }
+	case "taproot-keygen":
+		mk = func() protocol.StartFunc { return frost.KeygenTaproot(k, su.ids, su.t) }
+	case "frost-refresh":
+		mk = func() protocol.StartFunc { return frost.Refresh(cfgs[k].(*frost.Config), su.ids) }
+	case "taproot-refresh":
+		mk = func() protocol.StartFunc { return frost.RefreshTaproot(cfgs[k].(*frost.TaprootConfig), su.ids) }
+	default:
+		r.out.Applicable = false
+		r.out.Why = "dealer cheat applies to FROST key generation / refresh"
+		return
+	}
+	protos.FrostDealerCheat(sess, k, delta, []byte("sid"), mk)
+	for _, id := range su.ids {
+		e.AddParty(id, r.newParty(sess, id, label(id)))
+	}
+	r.loop(nil)
+	r.out.Reached = true
+}
+
 // presignCheat: one presigner deviates at state level (its proofs pass); every honest signer must single it out.
 func (r *runner) presignCheat(label func(party.ID) string, seed string) {
 	e := r.e
@@ -867,6 +905,24 @@ func (r *runner) foreign(sess *protos.Session, label func(party.ID) string, seed
 	var alien []*protocol.Message
 	for _, p := range or.Engine.Parties {
 		alien = append(alien, p.Emitted...)
+	}
+	// ... and the abort notices of that session: one of its parties is stopped in a second instance of it
+	if o2, _ := r.otherSession(seed); o2 != nil {
+		for i, id := range o2.IDs {
+			p, err, pv := sim.NewParty(id, sim.NewDetReader(seed+"/other-stop/"+string(id)), o2.Makers[id])
+			if err != nil || pv != "" {
+				continue
+			}
+			p.Drain()
+			if i == r.sc.Sched%len(o2.IDs) || i == 0 {
+				oc := p.Call(func() { p.H.Stop() })
+				for _, m := range oc.Emitted {
+					if m.RoundNumber == 0 {
+						alien = append(alien, m, m)
+					}
+				}
+			}
+		}
 	}
 	if len(alien) == 0 {
 		r.out.Applicable = false
